@@ -19,7 +19,7 @@ def run(tier, rep):
     def one(j):
         h, b = j
         out = os.path.join(d, '%s_%d.json' % (h, b))
-        r = subprocess.run([exe, '--harness', h, '--bound', str(b), '--out', out, '--max-schedules', '400000'], timeout=3300, env=senv,
+        r = subprocess.run([exe, '--harness', h, '--bound', str(b), '--out', out, '--max-schedules', '400000', '--budget', '90' if tier == 'quick' else '900'], timeout=3300, env=senv,
                            stdout=subprocess.PIPE, stderr=subprocess.PIPE, text=True)
         if r.returncode != 0 or 'HARNESS-ERROR' in r.stdout:
             raise SystemExit('HARNESS-ERROR: c12 %s exited %d %s' % (h, r.returncode, r.stdout[-300:]))
